@@ -43,6 +43,9 @@ FLOORS = {"quick": {"departures_checked": 20000, "drop_decisions_checked": 20000
                        "red_below_min": 100000, "red_above_limit": 40000, "lohi_ambiguous": 2000,
                        "arrival_at_departure_instant": 20000}}
 KEYS = tuple(FLOORS["quick"].keys()) + ("monitor_cases", "red_cases", "port_cases", "red_certain_drops_checked", "long_history_cases", "big_clock_cases", "zero_size_packets", "reentry_cases", "reentries")
+# floors for the situations added with the later rounds of seeded changes (evidence that they were really exercised)
+FLOORS["quick"].update({'reentries': 150})
+FLOORS["thorough"].update({'reentries': 750})
 
 
 def plan(tier):
